@@ -216,8 +216,10 @@ class BinaryCarver(BaseCarver):
         # number of values taken by the features
         n_mod_x = xtab.shape[0]
 
-        # Chi2 statistic
-        chi2 = chi2_contingency(xtab)[0]
+        # Chi2 statistic (not defined, hence no association, when a modality or a class is unobserved)
+        chi2 = 0
+        if all(xtab.sum(axis=0) > 0) and all(xtab.sum(axis=1) > 0):
+            chi2 = chi2_contingency(xtab)[0]
 
         # Cramér's V
         cramerv = sqrt(chi2 / n_obs)
